@@ -315,6 +315,11 @@ convert(struct func *f, struct type *dst, struct type *src, struct value *l)
 	} else {
 		class = dst->size == 8 ? 'd' : 's';
 		if (src->prop & PROPINT) {
+			/* a value of a type narrower than int may carry excess bits above its width */
+			switch (src->size) {
+			case 1: l = funcinst(f, src->u.basic.issigned ? IEXTSB : IEXTUB, 'w', l, NULL); break;
+			case 2: l = funcinst(f, src->u.basic.issigned ? IEXTSH : IEXTUH, 'w', l, NULL); break;
+			}
 			if (src->u.basic.issigned)
 				op = src->size == 8 ? ISLTOF : ISWTOF;
 			else
